@@ -85,13 +85,13 @@ Proof.
   - inversion H. reflexivity.
   - apply andb_true_iff in OK. destruct OK as [OK1 OK2].
     destruct (sh_skip sh).
-    + destruct (run_tests fns fuel r (genv ++ base)) as [rs1 sk1 stk1| | |] eqn:E; try discriminate.
+    + destruct (run_tests fns fuel r (genv ++ base)) as [rs1 sk1 stk1| | | |? ?] eqn:E; try discriminate.
       inversion H; subst. eapply IH; eauto.
     + unfold shadow_ok in OK1. apply andb_true_iff in OK1. destruct OK1 as [BK SP].
       pose proof (proj1 (proj2 (all_agree fns gn Hfns fuel)) genv base [] [] (sh_body sh) [] [] G locals_ok_nil BK SP) as A.
       unfold ref_test. unfold fresh_world in H. unfold mkw in A. simpl in A.
-      destruct (iexec fns fuel (sh_body sh) {| w_stk := genv ++ base; w_out := []; w_asr := [] |}) as [c w| | |] eqn:EI; try discriminate.
-      destruct (run_tests fns fuel r (truncate (length (genv ++ base)) (w_stk w))) as [rs1 sk1 stk1| | |] eqn:E; try discriminate.
+      destruct (iexec fns fuel (sh_body sh) {| w_stk := genv ++ base; w_out := []; w_asr := [] |}) as [c w| | | |?] eqn:EI; try discriminate.
+      destruct (run_tests fns fuel r (truncate (length (genv ++ base)) (w_stk w))) as [rs1 sk1 stk1| | | |? ?] eqn:E; try discriminate.
       inversion H; subst. clear H.
       destruct (exec_stmt fns fuel genv [] (sh_body sh) []) as [[c1 en1] out1|f out1| |].
       * simpl in A. destruct A as [c' [w' [EW [Hc [l [Hl [Hw Hp]]]]]]]. inversion EW; subst. simpl in *.
